@@ -255,6 +255,8 @@ def fixed_corpus():
     # case-insensitive
     out.append(Def([L('token', 'élan', ignore_case=True), L('regex', '[a-z]+k', ignore_case=True), L('token', 'ǆ', ignore_case=True),
                     L('skip', ' ')], origin='fixed:icase'))
+    # stack probes: single-character skips, long tokens
+    out.append(Def([L('skip', 'x'), L('regex', 'a+'), L('token', 'b'), L('regex', 'c[a-z]*d')], origin='fixed:stack'))
     # nested repetitions (exponential for backtrackers)
     out.append(Def([L('regex', '(a+)+b'), L('regex', '(a|aa)+c'), L('regex', '(a*)*d')], origin='fixed:nested'))
     FIXED.extend(out)
